@@ -530,7 +530,11 @@ func (fr *Frame) nextOp(x *ssa.Next, st *State) *Val {
 	if u.quantOK {
 		u.fact(implies(and(not(ok), nonnil), fmt.Sprintf("(forall ((qk %s)) (! (=> (select %s qk) (select %s qk)) :pattern ((select %s qk))))", ks, dom, visited, visited)))
 	}
-	u.fact(implies(and(not(ok), not(nonnil)), "true"))
+	// a non-empty map has a key, and exhaustion covers that key as well (a ground instance of the exhaustion
+	// fact: needs no quantifier)
+	wk := u.w.newConst("somekey:"+x.Name(), ks)
+	u.fact(implies(and(nonnil, fmt.Sprintf("(> %s 0)", u.mapLen(st, mt, it.mapRef))), fmt.Sprintf("(select %s %s)", dom, wk)))
+	u.fact(implies(and(not(ok), nonnil, fmt.Sprintf("(select %s %s)", dom, wk)), fmt.Sprintf("(select %s %s)", visited, wk)))
 	v := fr.named(x, fmt.Sprintf("(select %s %s)", u.mapVal(st, mt, it.mapRef), k), mt.Elem())
 	for _, f := range u.wfFacts(st, k, mt.Key(), 0) {
 		u.fact(f)
